@@ -13,6 +13,9 @@ L_BIG = "P0.2 P1.2 P2.2 P0.2 P1.2 P2.2 F P0.2 P1.2 P2.2 F"
 # two overlapping level-0 tables sharing a key (recovery writes its table to level 0), nothing below
 L_OVL = "P0.1 P1.1 O P1.1 P3.1 O"
 L_OVL2 = "P1.1 P2.1 O P0.1 P1.1 O"
+# a MANIFEST that grows past one 32 KiB log block (300-byte keys, ~100 edits), with and without reuse after a reopen
+L_LONGMAN = "P1.1 F O 50*(P1.1 F) O"
+LONGMAN_ITEMS = ["B1,reuse=1,uni=2@1^" + L_LONGMAN, "B1,uni=2@1^" + L_LONGMAN]
 
 # case-insensitive custom comparator over a universe with spellings it identifies ("a"/"A", "B"/"b")
 NOCASE = "B1,cmp=2,uni=5"
@@ -28,7 +31,7 @@ def c01_plan(tier):
     if tier == "quick":
         it = ["B1@4/3"] + ["B1,%s@0/2" % t for t in TOGGLES] + ["B2@0/2"]
         it += ["B1@2^" + L_DEEP, "B1,bloom=1,cache=1,mmap=0,snappy=1@2^" + L_DEEP, "B1@2^" + L_TOMB]
-        it += ["B1~rwr@0/2^" + L_OVL, "B1~rwr@0/2^" + L_OVL2, "B1~rwr@0/1^" + L_DEEP, NOCASE + "@0/2"]
+        it += ["B1~rwr@0/2^" + L_OVL, "B1~rwr@0/2^" + L_OVL2, "B1~rwr@0/1^" + L_DEEP, NOCASE + "@0/2"] + LONGMAN_ITEMS
     else:
         it = ["B1@5/4"] + ["B1,%s@4/3" % t for t in TOGGLES] + ["B2@3/3", "B2,snappy=1,bloom=1@3/2"]
         # full cross product of the boolean toggles at depth 2 (no dedup)
@@ -39,7 +42,7 @@ def c01_plan(tier):
                     t.append(nm)
             if len(t) >= 2:
                 it.append("B1,%s@0/2" % ",".join(t))
-        it += [NOCASE + "@4/3", NOCASE + "@2^P0.1 F P1.1 F P3.1 F P4.1 F"]
+        it += [NOCASE + "@4/3", NOCASE + "@2^P0.1 F P1.1 F P3.1 F P4.1 F"] + LONGMAN_ITEMS + ["B1,reuse=1,uni=2@2^" + L_LONGMAN]
         it += ["B1~rwr@0/3^" + L_OVL, "B1~rwr@0/3^" + L_OVL2, "B1~rwr@0/2^" + L_DEEP, "B1,cmp=1~rwr@0/2^" + L_OVL, "B1~rwr@3/2"]
         for L in (L_DEEP, L_TOMB, L_SNAP, L_BIG):
             it += ["B1@3^" + L, "B1,bloom=1,cache=1,mmap=0,snappy=1@3^" + L, "B1,cmp=1@2^" + L]
@@ -175,10 +178,13 @@ PROPS["C16"] = dict(
 PROPS["C17"] = dict(
     level="exploration",
     technique="exhaustive enumeration of a version-edit field grid and of all 2^32 varint32 values through the real encoder/decoder vs an independent MANIFEST codec; plus crash-point x crash-image enumeration of MANIFEST/CURRENT switches recovered by the real ldb_open",
-    rule="edit grid: 32 scalar-field masks x 25 boundary values x comparator shapes; 7 levels x 8 key shapes x file counts {0,1,3,2000} x compact pointers; level >= 7 rejection; every proper prefix of encoded edits; all byte strings <=2 (quick) / <=3 (thorough) differentially; varint32: all values < 2^21 plus windows around 2^7k (quick), all 2^32 (thorough); crash stage: every journal index of histories with reopen (new MANIFEST + CURRENT switch, reuse_logs appends) x image classes; distinct = distinct encoded-edit length classes",
+    rule="edit grid: 32 scalar-field masks x 25 boundary values x comparator shapes; 7 levels x 8 key shapes x file counts {0,1,3,2000} x compact pointers; level >= 7 rejection; every proper prefix of encoded edits; all byte strings <=2 (quick) / <=3 (thorough) differentially; varint32: all values < 2^21 plus windows around 2^7k (quick), all 2^32 (thorough); crash stage: every journal index of histories with reopen (new MANIFEST + CURRENT switch, reuse_logs appends) x image classes; replay stage: histories incl. a MANIFEST grown past one 32 KiB block (about 100 edits with 300-byte keys) with and without reuse across reopens: the reported layout equals the fold of the MANIFEST decoded independently, reopen reproduces it, reads stay right; distinct = distinct encoded-edit length classes",
     distinct_key="edit_len_class", assumptions=E5_ASSUME + E3_ASSUME,
     stages=[dict(name="edit", driver="c17_edit", flavour="asan"),
-            e3_stage("C17", 2, 3, "B1;B1,reuse=1", CFG_T, classes=0x7f)],
+            e3_stage("C17", 2, 3, "B1;B1,reuse=1", CFG_T, classes=0x7f),
+            dict(name="replay", driver="hist", flavour="asan", args=["--alphabet", "rw", "--oracle", "get,layout"],
+                 quick=["--plan", plan(LONGMAN_ITEMS + ["B1,reuse=1@2^P0.1 F O P1.1 F O", "B1,reuse=1@3/2"])],
+                 thorough=["--plan", plan(LONGMAN_ITEMS + ["B1,reuse=1,uni=2@2^" + L_LONGMAN, "B1,reuse=1@3^P0.1 F O P1.1 F O", "B1,reuse=1@4/3", "B1,reuse=1,snappy=1,bloom=1@3/2"])])],
 )
 PROPS["C18"] = dict(
     level="exploration",
@@ -264,7 +270,7 @@ ENGINES["fault"] = "E4: fault-site enumerator over the call log of the in-memory
 
 def c14_plan(tier):
     if tier == "quick":
-        return plan(["B1@4/3", "B1,snappy=1,bloom=1@0/2", "B1,cmp=1@0/2", NOCASE + "@0/2", "B2@0/2", "B1@2^" + L_DEEP, "B1@2^" + L_BIG, "B1@2^" + L_SNAP])
+        return plan(["B1@4/3", "B1,snappy=1,bloom=1@0/2", "B1,cmp=1@0/2", NOCASE + "@0/2", "B2@0/2"] + LONGMAN_ITEMS + ["B1@2^" + L_DEEP, "B1@2^" + L_BIG, "B1@2^" + L_SNAP])
     return plan(["B1@5/4", "B1,snappy=1,bloom=1@4/3", "B1,cmp=1@4/3", NOCASE + "@3/3", "B1,reuse=1@3/3", "B2@3/2", "B1@3^" + L_DEEP, "B1@3^" + L_BIG,
                  "B1@3^" + L_SNAP, "B1,cmp=1@3^" + L_DEEP, "B1,snappy=1,bloom=1@3^" + L_BIG])
 
